@@ -3,6 +3,8 @@
      reset src|live            new object, all-closed
      open <0|1>   setnr <0|1>   send <id> <header> <size> <expected|-> <timeoutMs>   recv <header> <data|->
      expire <i>   run <i>   adv <dt>   close1   close2   lerr
+     sendf <as send>   runf <i>     the same, the driver reporting a link error from inside link.send_packet: reply
+                                    `<reply of the critical section> | <reply of the deferred link error>` (the second only if transmitted)
    Reply: `ok tx=<sid>:<pkid>:<onClosed>,… new=<idx>:<interval>,… st=<one letter per timer: A C E D> link=<sid|->`
    (tx/new = what this step added) or `err <kind>` (state unchanged) or `bad-op`. -/
 import CfVerif.Base.Proto
@@ -44,10 +46,24 @@ def parseEv? : List String → Option Ev
   | ["lerr"] => some .linkError
   | _ => none
 
+def failing (d : DState) (ws : List String) : DState × String :=
+  match parseEv? ws with
+  | none => (d, "bad-op")
+  | some e =>
+    match step d.cfg d.s e with
+    | .error er => (d, "err " ++ showErr er)
+    | .ok s1 =>
+      if s1.log.length > d.s.log.length then
+        let s2 := stepT d.cfg s1 .linkError
+        ({ d with s := stepReportingError d.cfg d.s e }, showDelta d.s s1 ++ " | " ++ showDelta s1 s2)
+      else ({ d with s := s1 }, showDelta d.s s1)
+
 def dstep (d : DState) (ws : List String) : DState × String :=
   match ws with
   | ["reset", "src"] => ({ cfg := srcCfg, s := init }, "ok")
   | ["reset", "live"] => ({ cfg := liveCfg, s := init }, "ok")
+  | "sendf" :: rest => failing d ("send" :: rest)
+  | "runf" :: rest => failing d ("run" :: rest)
   | _ =>
     match parseEv? ws with
     | none => (d, "bad-op")
